@@ -18,6 +18,18 @@ known_finding_hits; otherwise it makes the run fail).  Membership predicates are
        when only the reversed comparison is decidable, e.g. Min(2 - z, 1) evaluates to 1 for positive integer z).
   F13  diff_geq_leq_zero only: f itself contains a Heaviside whose argument depends on s (a step function: its symbolic
        derivative is 0 / DiracDelta although f changes between integer points; the model never emits such an f).
+  F14  the formula contains NO Min/Max AND the failure disappears when sympy's own MinMaxBase._is_connected is put back (same
+       differential predicate and same root cause as F12, reached through sympy.calculus.util.function_range, which builds
+       Min/Max of the symbolic end-point values itself: (x - 3)*(y - 1) over x in [1,3] gets the range Interval(0, 2 - 2*y)
+       because Min(0, 2 - 2*y) evaluates to 0 for positive integer y under the patch).
+
+Targeted sub-families (enumerated, deterministic; see targeted_clamps / targeted_signs / targeted_heaviside):
+  (a) Max/Min clamps of possibly fractional quotients against c in {1/2, 1, 2, 3}, also with ceiling() around the quotient;
+  (b) products / quotients of 2-3 factors each provably <= 0, >= 0 or == 0 on the box (shifted constants, Min/Max factors);
+  (c) c1 - c2*Heaviside(v - k) with negative / mixed coefficients written directly (threshold inside, at the edge of, outside
+      the box) and arising as derivatives of Max/Min with a decreasing branch.
+Every case is evaluated twice in the same process: first with cold caches in generation order, then with warm caches in
+reversed order (the targeted cases first, so that a time-budget truncation does not drop them).
 """
 import itertools, math, random, signal, threading, time
 from fractions import Fraction
@@ -73,7 +85,7 @@ def ast_str(a):
     if k == "sym":
         return a[1]
     if k == "const":
-        return str(a[1])
+        return str(a[1]) if a[1] >= 0 and not isinstance(a[1], Fraction) else f"({a[1]})"
     l, r = ast_str(a[1]), ast_str(a[2])
     return {
         "add": f"({l} + {r})", "sub": f"({l} - {r})", "mul": f"({l}*{r})", "div": f"({l}/{r})",
@@ -131,7 +143,8 @@ def ast_sympy(a):
     if k == "sym":
         return syms[a[1]]
     if k == "const":
-        return sp.Integer(a[1])
+        c = Fraction(a[1])
+        return sp.Rational(c.numerator, c.denominator)  # an Integer when the denominator is 1
     l, r = ast_sympy(a[1]), ast_sympy(a[2])
     if k == "add":
         return l + r
@@ -246,6 +259,199 @@ def targeted(hi_max, depth_max):
     for f in (("min", ("sub", C(3), S("x")), ("sub", S("x"), C(1))), ("max", ("div", C(3), S("x")), S("x")),
               ("max", ("mul", C(2), S("x")), ("div", S("y"), S("x"))), ("hv", ("mul", C(2), S("x")), C(3))):
         out.append((f, {n: (1, top) for n in ast_syms(f)}))
+    return out
+
+
+# ---------------------------------------------------------------------------------------------
+# targeted sub-families (a) clamps of fractional quotients, (b) sign rules of products / quotients, (c) Heaviside terms with
+# negative / mixed coefficients.  All enumerated (no randomness); each entry is (tag, tree, box).
+# ---------------------------------------------------------------------------------------------
+HALF = Fraction(1, 2)
+
+
+def _mul(*fs):
+    out = fs[0]
+    for f in fs[1:]:
+        out = ("mul", out, f)
+    return out
+
+
+def _full(tree, top, extra=()):
+    return {n: (1, top) for n in set(ast_syms(tree)) | set(extra)}
+
+
+def targeted_clamps(tier, top):
+    """(a) Max/Min(c, Q) for a possibly fractional quotient Q and c in {1/2, 1, 2, 3}, combined as clamp - Q, Q - clamp,
+    symbol*clamp, clamp/symbol, clamp*clamp', clamp - 1, other_symbol*clamp (thorough: also clamp -/+ c, clamp/Q, Q/clamp), and the
+    same with ceiling() around the quotient inside the clamp."""
+    x, y, z = S("x"), S("y"), S("z")
+    thorough = tier == "thorough"
+    # (numerator, denominator, symbol of Q, a symbol to multiply with, partner quotient for clamp*clamp')
+    quots = [
+        (x, y, "x", "z", ("div", y, x)),
+        (x, C(2), "x", "y", ("div", C(3), x) if thorough else ("div", C(3), y)),  # same-symbol clamp products take seconds each
+        (C(3), x, "x", "y", ("div", x, C(2)) if thorough else ("div", y, C(2))),
+        (("mul", x, y), z, "x", "y", ("div", z, x)),
+    ]
+    if thorough:
+        quots += [
+            (x, ("mul", y, z), "x", "y", ("div", ("mul", y, z), x)),
+            (("mul", C(2), x), y, "y", "z", ("div", y, C(3))),
+            (x, C(3), "x", "y", ("div", C(2), x)),
+            (C(1), x, "x", "y", ("div", x, C(3))),
+        ]
+    partner_c = {HALF: 2, 1: 3, 2: HALF, 3: 1}
+    out = []
+    for qi, (num, den, s, t, pq) in enumerate(quots):
+        Q, cQ = ("div", num, den), ("ceil", num, den)
+        for c in (HALF, 1, 2, 3):
+            if not thorough and qi > 0 and c == 3:  # on boxes within 1..3 only x/y makes the clamp at 3 interesting
+                continue
+            for kind, other in (("max", "min"), ("min", "max")):
+                K, K2 = (kind, C(c), Q), (other, C(partner_c[c]), pq)
+                fs = [("sub", K, Q), ("sub", Q, K), ("mul", S(s), K), ("div", K, S(s)), ("mul", K, K2), ("sub", K, C(1)), ("mul", S(t), K)]
+                if thorough:
+                    fs += [("sub", K, C(c)), ("sub", C(c), K), ("div", K, Q), ("div", Q, K), ("sub", ("mul", C(2), K), Q),
+                           ("mul", K, (other, C(c), Q)), ("sub", K, (other, C(partner_c[c]), Q))]
+                if not thorough and qi > 0:  # quick: all combinations for x/y only
+                    fs = {1: fs[:4] + fs[5:6], 2: [fs[0], fs[2], fs[5]], 3: [fs[0], fs[5]]}[qi]
+                for f in fs:
+                    out.append(("a", f, _full(f, top)))
+                # a second box on which the clamp is (mostly) inactive / active the other way: stale per-formula caches
+                if thorough or (qi == 0 and c in (1, 2)):
+                    sub = {n: ((2, top) if n == s else (1, 1)) for n in ast_syms(K)}
+                    for f in (("sub", K, Q), ("sub", K, C(1))):
+                        out.append(("a", f, sub))
+                if thorough or qi < 2:  # ceiling() around the quotient, inside the clamp
+                    Kc = (kind, C(c), cQ)
+                    fc = [("sub", Kc, Q), ("mul", S(s), Kc)] + ([("div", Kc, S(s))] if thorough else [])
+                    if thorough:
+                        fc += [("sub", Q, Kc), ("sub", Kc, cQ), ("mul", Kc, K2), ("sub", Kc, C(1)), ("mul", S(t), Kc)]
+                    for f in fc:
+                        out.append(("a", f, _full(f, top)))
+    return out
+
+
+def _sign_factors(v, T):
+    """factors of one symbol v with a provable sign on 1 <= v <= T: name -> (tree, sign, never zero on the box)"""
+    V = S(v)
+    return {
+        "v-T": (("sub", V, C(T)), -1, False), "1-v": (("sub", C(1), V), -1, False), "v-T-1": (("sub", V, C(T + 1)), -1, True),
+        "v-1": (("sub", V, C(1)), +1, False), "T-v": (("sub", C(T), V), +1, False), "v": (V, +1, True),
+        "T+1-v": (("sub", C(T + 1), V), +1, True),
+        "Min(-1,v-T)": (("min", C(-1), ("sub", V, C(T))), -1, True), "Min(-2,v-T)": (("min", C(-2), ("sub", V, C(T))), -1, True),
+        "Max(1,v-1)": (("max", C(1), ("sub", V, C(1))), +1, True),
+        "Min(0,v-2)": (("min", C(0), ("sub", V, C(2))), -1, False), "Max(0,v-2)": (("max", C(0), ("sub", V, C(2))), +1, False),
+    }
+
+
+def targeted_signs(tier, top):
+    """(b) products / quotients of 2-3 factors each of which is <= 0, >= 0 (or == 0: degenerate boxes) on the box"""
+    thorough = tier == "thorough"
+    out = []
+    for T in ((3, 4) if thorough and top >= 4 else (3,)):
+        fx, fy, fz = _sign_factors("x", T), _sign_factors("y", T), _sign_factors("z", T)
+        names = list(fx) if thorough else ["v-T", "1-v", "v-T-1", "v-1", "v", "Min(-1,v-T)", "Min(0,v-2)"]
+        dens = [n for n in names if fx[n][2]]
+        for i, a in enumerate(names):
+            for b in names[i:]:
+                f = ("mul", fx[a][0], fy[b][0])
+                out.append(("b", f, _full(f, T)))
+            for b in dens:
+                f = ("div", fx[a][0], fy[b][0])
+                out.append(("b", f, _full(f, T)))
+        x, y, z = S("x"), S("y"), S("z")
+        three = [
+            _mul(x, fy["v-T"][0], fz["v-T"][0]), _mul(fx["v-T"][0], fy["v-T"][0], fz["v-T"][0]), _mul(fx["v-T"][0], fy["v-T"][0], z),
+            _mul(fx["1-v"][0], fy["v-T"][0], fz["v-1"][0]), ("div", _mul(fx["v-T"][0], fy["v-T"][0]), fz["v-T-1"][0]),
+            ("div", _mul(fx["v-T"][0], fy["1-v"][0]), z), ("div", x, _mul(fy["v-T-1"][0], fz["v-T-1"][0])),
+            ("div", fx["v-T"][0], _mul(fy["v-T-1"][0], z)), _mul(fx["Min(-1,v-T)"][0], fy["Min(-2,v-T)"][0], z),
+            _mul(fx["Min(-1,v-T)"][0], fy["Min(-2,v-T)"][0], fz["v-T"][0]), _mul(fx["Min(0,v-2)"][0], fy["Min(0,v-2)"][0], z),
+            _mul(fx["Min(-1,v-T)"][0], fy["Max(1,v-1)"][0], fz["v-T"][0]), ("div", _mul(fx["Min(-1,v-T)"][0], fy["v-T"][0]), fz["Min(-2,v-T)"][0]),
+            _mul(fx["v-T"][0], fx["1-v"][0], fy["v-T"][0]), _mul(fx["v-T"][0], fx["v-T"][0], fy["v-T"][0]),
+            ("sub", C(0), _mul(fx["v-T"][0], fy["v-T"][0])), ("sub", _mul(fx["v-T"][0], fy["v-T"][0]), _mul(x, fz["v-T"][0])),
+            ("add", _mul(fx["v-T"][0], fy["v-T"][0]), _mul(fx["1-v"][0], fz["1-v"][0])),
+        ]
+        for f in three:
+            out.append(("b", f, _full(f, T)))
+        # degenerate / shifted boxes: a factor that is == 0 on the whole box, a factor that is strictly negative on it
+        for f in (("mul", fx["v-T"][0], fy["v-T"][0]), ("div", fx["v-T"][0], fy["v-T-1"][0]), _mul(x, fy["v-T"][0], fz["v-T"][0]),
+                  _mul(fx["Min(-1,v-T)"][0], fy["Min(-2,v-T)"][0], z), ("mul", fx["1-v"][0], fy["v-T"][0])):
+            ns = sorted(ast_syms(f))
+            out.append(("b", f, {n: ((T, T) if n == "x" else (1, T)) for n in ns}))
+            out.append(("b", f, {n: ((1, T - 1) if n != "z" else (1, T)) for n in ns}))
+            out.append(("b", f, {n: ((2, T) if n == "x" else (1, T - 1)) for n in ns}))
+    return out
+
+
+def targeted_heaviside(tier, top):
+    """(c) c1 - c2*Heaviside(v - k) written directly (negative and mixed coefficients; threshold inside / at the edge of / outside
+    the box) and arising as derivative of Max/Min with a decreasing branch"""
+    thorough = tier == "thorough"
+    x, y, s, a, b = S("x"), S("y"), S("x"), S("y"), S("z")
+    out = []
+
+    def add(f, box=None, extra=()):
+        out.append(("c", f, box or _full(f, top, extra)))
+
+    coef = [(1, 1), (1, 2), (2, 3), (3, 1), (0, 2)] + ([(2, 1), (1, 3), (3, 2), (3, 3), (0, 1), (2, 2)] if thorough else [])
+    ks = [0, 1, 2, top, top + 2]
+    for c1, c2 in coef:
+        for k in ks:
+            h, hr = ("hv", x, C(k)), ("hv", C(k), x)
+            lin = ("sub", C(c1), ("mul", C(c2), h))
+            add(lin)
+            add(("mul", y, lin))  # d/dy is the Heaviside expression itself
+            if thorough or k in (2, top):
+                add(("sub", C(c1), ("mul", C(c2), hr)))
+            if thorough:
+                add(("sub", ("mul", C(c1), y), _mul(C(c2), y, h)))
+                add(("div", lin, y))
+                add(("mul", ("sub", y, C(top)), lin))
+                add(("mul", y, ("sub", C(c1), ("mul", C(c2), hr))))
+    for c1, c2 in coef[1:3] if not thorough else coef[:4]:  # non-integer threshold 3/2 or 5/2, threshold depending on a second symbol
+        for f in (("sub", C(c1), ("mul", C(c2), ("hv", ("mul", C(2), x), C(3)))), ("sub", C(c1), ("mul", C(c2), ("hv", ("mul", C(2), x), C(5)))),
+                  ("sub", C(c1), ("mul", C(c2), ("hv", x, y))), ("mul", b, ("sub", C(c1), ("mul", C(c2), ("hv", x, y))))):
+            add(f)
+    for (c1, k1), (c2, k2) in (((1, 2), (1, 2)), ((2, 2), (1, 3)), ((1, 1), (2, 2)), ((3, 2), (2, 1)), ((1, 0), (1, 2)), ((2, 5), (3, 2))):
+        add(("sub", ("mul", C(c1), ("hv", x, C(k1))), ("mul", C(c2), ("hv", y, C(k2)))))  # two atoms, mixed signs
+        add(("mul", b, ("sub", ("mul", C(c1), ("hv", x, C(k1))), ("mul", C(c2), ("hv", y, C(k2))))))
+    # derivative shapes: Max/Min with a decreasing branch
+    cs = (1, 2, 3)
+    kk = (2, 3, 4, 5, 6, 10) if thorough else (3, 4, 5, 10)
+    for c in cs:
+        for k in kk:
+            dec = ("sub", C(k), s)
+            for kind in ("max", "min"):
+                K = (kind, C(c), dec)
+                add(K)
+                add(("mul", b, K))
+                add(("add", ("mul", C(2), K), s))  # derivative 1 - 2 H: mixed
+                if thorough or k == 4:
+                    add(("add", K, s))  # derivative 1 - H
+                if thorough or k in (4, 10):
+                    add(("mul", s, K))
+                    add(("sub", b, K))
+                    if thorough:
+                        add(("add", K, ("mul", C(2), s)))
+                        add(("div", K, s))
+                        add(("div", b, K) if kind == "max" or k > top else ("mul", C(3), K))
+    for c in (HALF, 1, 2, 3) if thorough else (HALF, 1, 2):
+        for kind in ("max", "min"):
+            fs = [("mul", b, (kind, C(c), ("div", a, s))), ("sub", b, (kind, C(c), ("div", a, s))), ("add", (kind, C(c), ("div", a, s)), s),
+                  ("add", (kind, C(c), ("div", C(3), s)), ("div", s, C(2)))]
+            if thorough:
+                fs += [(kind, C(c), ("div", a, s)), ("mul", b, (kind, C(c), ("div", C(3), s)))]
+            for f in fs:
+                add(f)
+    return out
+
+
+def targeted2(tier, hi_max):
+    top = min(3, hi_max)
+    out = targeted_clamps(tier, top) + targeted_signs(tier, hi_max) + targeted_heaviside(tier, top)
+    if tier == "thorough" and hi_max > top:  # the clamps and Heaviside families once more on the larger box
+        out += targeted_clamps("quick", hi_max) + targeted_heaviside("quick", hi_max)
     return out
 
 
@@ -400,8 +606,8 @@ def classes_of(r, want_f12=True):
             out.append("F11")
     if r["kind"] == "diff" and any(syms[r["sym"]] in h.free_symbols for h in expr.atoms(sp.Heaviside)):
         out.append("F13")
-    if want_f12 and ast_has(r["tree"], ("min", "max")) and _sound_with_pristine_sympy(r):
-        out.append("F12")
+    if want_f12 and _sound_with_pristine_sympy(r):
+        out.append("F12" if ast_has(r["tree"], ("min", "max")) else "F14")
     return out
 
 
@@ -425,22 +631,27 @@ RULE = (
     "dependent (sympy: 1/2): a case with Heaviside fails only if the verdict is violated under each of H(0) in {1/2, 0, 1} and is "
     "given to the promise mode only if the promise holds under all three. Formulas undefined (zero denominator) at a box point are "
     "excluded. The lru_caches of diff, diff_geq_leq_zero, function_range, _compare_to_zero, geq_leq_zero and _is_connected_cache are "
-    "cleared before each case; afterwards all cases are re-run in reversed order WITHOUT clearing (cache-order sensitivity) under the "
-    "same contract. Known classes: F9 formula contains ceiling; F10 analysed expression has >= 2 distinct Heaviside atoms; F11 promise "
+    "cleared before each case; afterwards all cases are re-run in reversed order (targeted cases first) WITHOUT clearing "
+    "(cache-order sensitivity, stale per-expression caches) under the same contract. Known classes: F9 formula contains ceiling; F10 analysed expression has >= 2 distinct Heaviside atoms; F11 promise "
     "mode, f = 0 at both corners and not identically 0; F12 has Min/Max and is sound once sympy's own _is_connected is restored; F13 "
-    "diff call on an f that itself contains Heaviside(.. s ..)."
+    "diff call on an f that itself contains Heaviside(.. s ..); F14 no Min/Max in f and sound once sympy's own _is_connected is "
+    "restored (function_range builds the Min/Max itself)."
 )
 
 
 def _limits(tier):
     if tier == "thorough":
-        return dict(depth=3, hi=4, n_d2=1000, n_d3=1000, boxes=2, call_limit=5.0, budget=480.0)
-    return dict(depth=2, hi=3, n_d2=750, n_d3=0, boxes=2, call_limit=3.0, budget=105.0)
+        return dict(depth=3, hi=4, n_d2=1000, n_d3=1000, boxes=2, call_limit=5.0, budget=640.0, budget2=400.0)
+    return dict(depth=2, hi=3, n_d2=750, n_d3=0, boxes=2, call_limit=3.0, budget=86.0, budget2=50.0)
 
 
-def gen_cases(seed, tier):
-    """deterministic list of (tree, names, box)"""
+def gen_cases(seed, tier, only_targeted=False, n_targeted=None, n_enumerated=None, tags=None):
+    """deterministic list of (tree, names, box); the first n_targeted[0] of them are the targeted (enumerated) ones, the first
+    n_enumerated[0] the targeted ones plus every depth<=1 formula"""
     L = _limits(tier)
+    n_targeted = [0] if n_targeted is None else n_targeted
+    n_enumerated = [0] if n_enumerated is None else n_enumerated
+    tags = [] if tags is None else tags  # parallel to the result: "t" old targeted, "a"/"b"/"c" new sub-families, "d1", "rnd"
     rnd = random.Random(1000003 * int(seed) + (7 if tier == "thorough" else 3))
     cases, seen = [], set()
 
@@ -458,7 +669,7 @@ def gen_cases(seed, tier):
                 out.append(b)
         return out
 
-    def add(tree, box):
+    def add(tree, box, tag):
         names = tuple(sorted(ast_syms(tree)))
         if not names:
             return
@@ -466,13 +677,24 @@ def gen_cases(seed, tier):
         if key not in seen:
             seen.add(key)
             cases.append((tree, names, {n: box[n] for n in names}))
+            tags.append(tag)
 
     for f, box in targeted(L["hi"], L["depth"]):
-        add(f, box)
+        add(f, box, "t")
+    for tag, f, box in targeted2(tier, L["hi"]):
+        add(f, box, tag)
+    n_targeted[0] = n_enumerated[0] = len(cases)
+    if only_targeted:
+        return cases
     rest = []
     for f in depth1_all():  # depth <= 1: every formula
         for b in boxes_for(tuple(sorted(ast_syms(f))), L["boxes"]):
             rest.append((f, b))
+    rnd.shuffle(rest)
+    for f, b in rest:  # the enumerated core goes before the sampled part: a time-budget truncation must not cut into it
+        add(f, b, "d1")
+    n_enumerated[0] = len(cases)
+    rest = []
     for d, n in ((2, L["n_d2"]), (3, L["n_d3"])):
         for _ in range(n):
             f = random_ast(rnd, d)
@@ -480,7 +702,7 @@ def gen_cases(seed, tier):
                 rest.append((f, b))
     rnd.shuffle(rest)  # so that a time-budget truncation does not remove one depth entirely
     for f, b in rest:
-        add(f, b)
+        add(f, b, "rnd")
     return cases
 
 
@@ -564,14 +786,18 @@ def bounded(p):
     tier = p.get("tier", "quick")
     known = {e.get("class_id") for e in (p.get("known") or []) if isinstance(e, dict)}
     L = _limits(tier)
-    cases = gen_cases(seed, tier)
+    nt, ne, tags = [0], [0], []
+    cases = gen_cases(seed, tier, only_targeted=bool(p.get("only_targeted")), n_targeted=nt, n_enumerated=ne, tags=tags)
+    fam_gen, fam_run = {}, {}
+    for t in tags:
+        fam_gen[t] = fam_gen.get(t, 0) + 1
     stats = {"cases_generated": len(cases), "cases_run": 0, "excluded_undefined": 0, "calls": 0, "timeouts": 0, "raised": 0,
              "convention_sensitive": 0, "order_sensitive": 0, "build_mismatch_cases": 0, "violations_first_pass": 0,
              "unclassified_violations": 0, "truncated": False}
     verdicts = {k: {"GEQ": 0, "LEQ": 0, "EQ": 0, "UNKNOWN": 0} for k in ("plain", "promise", "diff")}
     nonvacuous = {"plain": 0, "promise": 0, "diff": 0}
     raised_types, hits, hit_samples, samples, distinct, first, transitions = {}, {}, {}, [], set(), {}, {}
-    fail = [None]
+    fail, class_memo = [None], {}
 
     def absorb(recs, second):
         if not second and recs and recs[0]["build_mismatch"]:
@@ -614,7 +840,10 @@ def bounded(p):
             cheap = classes_of(r, want_f12=False)
             open_cls = [c for c in cheap if c in known]
             if not open_cls:
-                allc = classes_of(r, want_f12=True)
+                ck = key + (r["verdict"],)  # class membership depends on the input and the verdict only: computed once
+                if ck not in class_memo:
+                    class_memo[ck] = classes_of(r, want_f12=True)
+                allc = class_memo[ck]
                 open_cls = [c for c in allc if c in known]
             else:
                 allc = cheap
@@ -630,26 +859,31 @@ def bounded(p):
                            required=required(r), known_classes_of_input=allc or "none")
             return
 
-    done = []
-    for tree, names, box in cases:
-        if time.time() - t0 > L["budget"]:
+    done, done_t = [], []
+    for i, (tree, names, box) in enumerate(cases):
+        if time.time() - t0 > L["budget"] * (1.0 if i >= ne[0] else 1.5):  # the enumerated part gets some grace on a loaded machine
             stats["truncated"] = True
+            stats["truncated_inside_enumerated_part"] = i < ne[0]
             break
         recs = run_case(tree, names, box, L["call_limit"], clear=True)
         if recs is None:
             stats["excluded_undefined"] += 1
             continue
         stats["cases_run"] += 1
-        done.append((tree, names, box))
+        fam_run[tags[i]] = fam_run.get(tags[i], 0) + 1
+        (done_t if i < nt[0] else done).append((tree, names, box))
         absorb(recs, False)
         if fail[0]:
             break
+    stats["first_pass_s"] = round(time.time() - t0, 1)
     t1 = time.time()
     if not fail[0]:
         _clear_caches()
-        for tree, names, box in reversed(done):
-            if time.time() - t1 > 0.6 * L["budget"]:
+        # second evaluation of every case: warm caches, reversed order; the targeted cases first
+        for tree, names, box in list(reversed(done_t)) + list(reversed(done)):
+            if time.time() - t1 > L["budget2"]:
                 stats["truncated"] = True
+                stats["second_pass_truncated"] = True
                 break
             recs = run_case(tree, names, box, L["call_limit"], clear=False)
             if recs is not None:
@@ -663,10 +897,19 @@ def bounded(p):
                   f"{L['depth']}; boxes lo..hi with 1 <= lo <= hi <= {L['hi']}; every depth<=1 formula, {L['n_d2']} seeded depth-2"
                   + (f" and {L['n_d3']} seeded depth-3" if L["n_d3"] else "") + " formulas, plus targeted corner-vanishing / ceiling / "
                   f"tent formulas; per formula the full box [1,{L['hi']}]^n and {L['boxes'] - 1} seeded sub-box(es); SAMPLED beyond depth 1 "
-                  f"(depth-2 alone has ~7e5 formulas x 216 boxes), time budget {L['budget']:.0f}s + re-run"),
+                  f"(depth-2 alone has ~7e5 formulas x 216 boxes). PLUS three enumerated targeted sub-families outside that grammar's "
+                  f"constants (rational 1/2, 0, negative and larger constants; depth <= 5): (a) {fam_gen.get('a', 0)} clamp cases Max/Min(c, Q), "
+                  f"c in 1/2,1,2,3, Q a quotient of symbols / small products / constants, as clamp-Q, Q-clamp, symbol*clamp, clamp/symbol, "
+                  f"clamp*clamp', clamp-1, also with ceiling(Q); (b) {fam_gen.get('b', 0)} products / quotients of 2-3 factors of provable sign "
+                  f"(v-T, 1-v, v-T-1, v-1, v, Min(-1,v-T), Min(0,v-2), ... on boxes within 1..T, T = 3" + (" and 4" if L["hi"] >= 4 else "")
+                  + f"; degenerate boxes for == 0); (c) {fam_gen.get('c', 0)} Heaviside cases c1 - c2*H(v-k), k inside / at the edge of / "
+                  f"outside the box, and Max/Min(c, k - s), b*Max/Min(c, a/s) shapes whose derivative has a negative Heaviside coefficient. "
+                  f"Order: targeted, then depth<=1, then the seeded part; time budget {L['budget']:.0f}s first pass (the seeded part is cut "
+                  f"first) + {L['budget2']:.0f}s second pass"),
         "exhaustive": False, "samples": samples[:8] + list(hit_samples.values())[:5],
         "known_finding_hits": sum(hits.values()), "known_finding_hits_by_class": hits,
         "verdicts_first_pass": verdicts, "non_unknown_verdicts_checked": checked, "of_which_non_vacuous": nonvacuous,
+        "cases_by_family (generated)": fam_gen, "cases_by_family (run)": fam_run,
         "stats": stats, "order_sensitive_transitions (cold caches -> warm caches, reversed order)": transitions, "raised_by_type": {k: {"count": v[0], "example": v[1]} for k, v in raised_types.items()},
         "wall_s": round(time.time() - t0, 1),
         "assumptions": ["sampled (seeded) family beyond depth 1 and sampled boxes: exploration, not exhaustive",
@@ -688,6 +931,7 @@ WITNESSES = {
     "F11": (("sub", ("max", S("x"), S("z")), S("z")), {"x": (1, 3), "z": (1, 3)}, "promise", None),
     "F12": (("min", ("sub", C(2), S("z")), C(1)), {"z": (1, 3)}, "plain", None),
     "F13": (("hv", ("mul", C(2), S("z")), C(3)), {"z": (1, 3)}, "diff", "z"),
+    "F14": (("mul", ("sub", S("x"), C(3)), ("sub", S("y"), C(1))), {"x": (1, 3), "y": (1, 3)}, "plain", None),
 }
 
 
@@ -724,4 +968,6 @@ def replay(p):
 
 
 def crosscheck(p):
+    if "tier" not in p and int(p.get("n", 200) or 200) >= 2000:
+        p = dict(p, tier="thorough")
     return bounded(p)
